@@ -17,6 +17,93 @@ from harness import exactrun as er
 LEVEL = 'proof'
 
 
+def decision_cases(rng, n):
+    """Direct differential of the decision rule: the REAL CheckConvergence.check_convergence on a live step whose
+    status/params are set by hand (all IEEE specials: nan, +-inf, -0.0, values one ulp around restol), against
+    Model/Stopping.conv fed with the booleans the property defines (res_ok := residual <= restol in IEEE arithmetic,
+    i.e. false for nan)."""
+    import math
+    import numpy as np
+    from pySDC.implementations.controller_classes.controller_nonMPI import controller_nonMPI
+    from pySDC.implementations.convergence_controller_classes.check_convergence import CheckConvergence
+    from pySDC.implementations.convergence_controller_classes.estimate_embedded_error import EstimateEmbeddedError
+    from pySDC.implementations.problem_classes.TestEquation_0D import testequation0d
+    from pySDC.implementations.sweeper_classes.generic_implicit import generic_implicit
+    out = []
+    for with_etol in (False, True):
+        description = {'problem_class': testequation0d, 'problem_params': {'lambdas': np.array([-1.0 + 0j]), 'u0': 1.0 + 0j},
+                       'sweeper_class': generic_implicit, 'sweeper_params': {'quad_type': 'RADAU-RIGHT', 'num_nodes': 2, 'QI': 'IE'},
+                       'level_params': dict({'dt': 0.1, 'restol': -1.0}, **({'e_tol': 1e-3} if with_etol else {})),
+                       'step_params': {'maxiter': 3},
+                       'convergence_controllers': ({EstimateEmbeddedError: {}} if with_etol else {})}
+        C = controller_nonMPI(num_procs=1, description=description, controller_params={'logger_level': 90, 'dump_setup': False})
+        S = C.MS[0]
+        L = S.levels[0]
+        specials = [0.0, -0.0, 5e-324, 1e-300, 1e-12, 1.0, 1e300, math.inf, -math.inf, math.nan, -1.0]
+        restols = [-1.0, 0.0, 1e-12, 1.0, math.inf, math.nan]
+        for _ in range(n):
+            restol = rng.choice(restols)
+            around = [restol, math.nextafter(restol, math.inf), math.nextafter(restol, -math.inf)] if math.isfinite(restol) else []
+            res = rng.choice(specials + around + around)
+            maxiter = rng.choice([0, 1, 3])
+            it = rng.choice([0, 1, 2, 3, 4])
+            sweep = rng.choice([0, 1, 2])
+            fd, fc = rng.random() < 0.2, rng.random() < 0.2
+            etol = rng.choice([None, 0.0, 1e-3, math.inf]) if with_etol else None
+            inc = rng.choice([None, 0.0, 1e-6, 1e-3, 1.0, math.nan]) if with_etol else None
+            S.params.__dict__['maxiter'] = maxiter
+            S.status.iter, S.status.force_done, S.status.force_continue = it, fd, fc
+            L.params.__dict__['restol'] = restol
+            L.status.residual, L.status.sweep = res, sweep
+            if with_etol:
+                L.params.__dict__['e_tol'] = etol
+                L.status.increment = inc
+            got = CheckConvergence.check_convergence(S)
+            res_ok = bool(res <= restol)
+            e_ok = bool(with_etol and etol and inc and inc < etol)
+            out.append((dict(residual=repr(res), restol=repr(restol), maxiter=maxiter, iter=it, sweep=sweep, force_done=fd, force_continue=fc,
+                             e_tol=repr(etol), increment=repr(inc)), (maxiter, it, sweep, res_ok, e_ok, fd, fc), bool(got), type(got).__name__))
+    return out
+
+
+def blowup_runs():
+    """Real float runs whose iteration overflows to inf/nan (explicit SDC far outside its stability region): a step may only
+    finish before maxiter if its reported residual really is <= restol (a nan residual is not)."""
+    import numpy as np
+    from pySDC.implementations.controller_classes.controller_nonMPI import controller_nonMPI
+    from pySDC.implementations.problem_classes.TestEquation_0D import testequation0d
+    from pySDC.implementations.sweeper_classes.explicit import explicit
+    from pySDC.implementations.hooks.log_solution import LogSolution
+    from pySDC.helpers.stats_helper import get_sorted
+    from pySDC.core.hooks import Hooks
+
+    class Rec(Hooks):
+        log = []
+
+        def post_step(self, step, level_number):
+            Rec.log.append((step.time, step.status.iter, step.levels[0].status.residual))
+
+    res = []
+    for rtype in ('full_abs', 'last_abs', 'full_rel', 'last_rel'):
+        for nprocs in (1, 2):
+            for lam in (-1e60, -1e120):
+                Rec.log = []
+                description = {'problem_class': testequation0d, 'problem_params': {'lambdas': np.array([lam + 0j]), 'u0': 1.0 + 0j},
+                               'sweeper_class': explicit, 'sweeper_params': {'quad_type': 'RADAU-RIGHT', 'num_nodes': 3},
+                               'level_params': {'dt': 1.0, 'restol': 1e-10, 'residual_type': rtype}, 'step_params': {'maxiter': 12}}
+                C = controller_nonMPI(num_procs=nprocs, description=description,
+                                      controller_params={'logger_level': 90, 'dump_setup': False, 'hook_class': [Rec]})
+                with np.errstate(all='ignore'):
+                    import warnings
+                    with warnings.catch_warnings():
+                        warnings.simplefilter('ignore')
+                        C.run(u0=C.MS[0].levels[0].prob.u_exact(0.0), t0=0.0, Tend=1.0 * nprocs)
+                for t, it, r in Rec.log:
+                    res.append((dict(residual_type=rtype, num_procs=nprocs, lam=lam, time=t, iter=it, residual=repr(float(r)), maxiter=12, restol=1e-10),
+                                it, float(r)))
+    return res
+
+
 def rf(rng, lo=-3, hi=2, dens=(1, 2, 3, 4)):
     return F(rng.randint(lo, hi), rng.choice(dens))
 
@@ -212,3 +299,37 @@ def run(ck):
                          dict(meta, correspondence='Model/Stopping.run_block', rounds=rounds, observed=fins, model=list(r)),
                          match={'kind': 'stopping_correspondence'}, no_input=True)
     ck.obligation('stopping model = implementation on %d blocks' % len(blocks), nbad == 0)
+
+    # ---- decision rule itself, with IEEE special values (nan/inf/-0.0/one ulp around restol) on the REAL check_convergence
+    dc = decision_cases(rng, 4000 if thorough else 600)
+    L = ['From Coq Require Import List Arith Bool.', 'From PySDC Require Import Model.Stopping.', 'Import ListNotations.',
+         'Definition dcases : list (nat * nat * nat * bool * bool * bool * bool) := [',
+         ';\n'.join('  (%d, %d, %d, %s, %s, %s, %s)' % ((m[0], m[1], m[2]) + tuple(coq_bool(b) for b in m[3:])) for _, m, _, _ in dc), '].',
+         "Eval vm_compute in map (fun '(mx, it, sw, r, e, fd, fc) => conv mx it sw {| res_ok := r; e_ok := e; fdone := fd; fcont := fc |}) dcases."]
+    rc, out = ck.coqc(ck.write_gen('Decide.v', '\n'.join(L) + '\n'), timeout=600)
+    if rc != 0:
+        ck.obligation('Decide.v evaluates', False, out[-1500:])
+        ck.violation('generated decision cases do not compile', {'log': out[-3000:]}, match={'kind': 'gen'}, no_input=True)
+        return
+    model = parse_coq_value(eval_outputs(out)[0])
+    nbad = 0
+    kinds = {}
+    for (desc, m, got, tname), want in zip(dc, model):
+        ck.traces += 1
+        ck.case(key=('decide',) + tuple(sorted(desc.items())), sample=desc)
+        kinds[desc['residual']] = kinds.get(desc['residual'], 0) + 1
+        if bool(want) != got or tname not in ('bool', 'bool_'):
+            nbad += 1
+            ck.violation('check_convergence decides %r (%s) but the stopping rule (Model/Stopping.conv with res_ok := residual <= restol) gives %r'
+                         % (got, tname, bool(want)), dict(desc, implementation=got, model=bool(want)),
+                         match={'kind': 'decision_rule', 'nan_residual': desc['residual'] == 'nan'})
+    ck.cov['decision_cases_by_residual_value'] = kinds
+    ck.obligation('check_convergence = Stopping.conv on %d hand-set states incl. nan/inf/ulp-neighbours of restol' % len(dc), nbad == 0)
+    nb = 0
+    for desc, it, r in blowup_runs():
+        ck.traces += 1
+        nb += 1
+        if it < desc['maxiter'] and not (r <= desc['restol']):
+            ck.violation('diverging float run: step declared finished after %d < maxiter iterations with residual %r which is not <= restol' % (it, r),
+                         desc, match={'kind': 'unsound_stop', 'float_blowup': True})
+    ck.cov['float_blowup_steps_checked'] = nb
